@@ -12,10 +12,13 @@
   is answered 431 or decoded depending on the read sizes) and this module no longer checks.
 -/
 import NngModel.Proofs.HttpConn
+import NngModel.Proofs.HttpSpecLines
+import NngModel.Proofs.HttpSpecLinesRes
+import NngModel.Proofs.HttpEmit
 import NngModel.Generated.C16H
 namespace Nng.C16Http
 open Nng Nng.HttpConn
-open Nng.HttpSpec (decode St Params decodeReq isBadCtl endsWithCR stepByte)
+open Nng.HttpSpec (decode St Params decodeReq decodeRes isBadCtl endsWithCR stepByte)
 
 /-! ## facts about the source the proofs rest on (re-extracted on every run) -/
 
@@ -240,7 +243,11 @@ theorem header_line_round_trip (m : Msg) (client : Bool) (k v : Bytes) (hk : COL
   simp only [hv]
   rfl
 
-/-! ## stated, checked by differential execution on every generated case, not proved -/
+/-! ## model's line meaning = the specification's -/
+
+/-- nni_http_req_parse drops the result of http_parse_header (a request header line without ':' is skipped);
+    the specification's `reqSem` says the same.  Extracted from the source on every run. -/
+theorem req_header_errors_ignored : reqIgnoresHeaderError = true := by decide
 
 /-- the model's line meaning (`msem`, which mirrors http_msg.c with its header nodes) and the specification's
     (`reqSem`/`resSem`, by header names) decode every stream to the same fields -/
@@ -255,7 +262,71 @@ def spec_lines_statement : Prop :=
      | .run _ _ _ _, .run _ _ _ _ => True
      | _, _ => False)
 
-/-- the head written for a request decodes to the fields it was written from -/
+/-- PROVED (every byte stream, complete or not): the decoder over the model's line meaning and the decoder
+    over the specification's reach the same kind of state at the same stream position, with the same error
+    number, resp. the same status, method, URI, version and header list (names and values, in order).
+    Proof: the relation `RR` (Proofs/HttpSpecLines.lean) between the connection's message state and the
+    specification's request — equal fields plus the invariant `TagsOk` (the embedded host_header node is the one
+    header named Host; the embedded content_type / content_length nodes bear those names), under which unlinking
+    a node by identity (nni_list_node_remove) and deleting by name coincide — is a simulation for the three
+    operations of a line meaning (`msem_reqSem`); `decode_rel` lifts a simulation to all streams. -/
+theorem spec_lines : spec_lines_statement := by
+  intro p s h1 h2 h3 h4 h5 h6 h7 h8 _ _
+  have hp : ReqParams p := { host := h6, ctype := h7, clen := h8, versions := h3, canon := h4, meth := h5 }
+  have hrel := decode_rel RR (msem true) (HttpSpec.reqSem p) (msem_reqSem req_header_errors_ignored p hp) bufsz marker
+    (connReset {}) { vers := defaultVersion } init_rel s
+  unfold decodeReq
+  rw [h1, h2]
+  generalize decode (msem true) bufsz marker (connReset {}) s = x at hrel
+  generalize decode (HttpSpec.reqSem p) bufsz marker { vers := defaultVersion } s = y at hrel
+  cases hrel with
+  | run a b racc len n hr => trivial
+  | done a b n hr => exact ⟨rfl, effStatus_eq a b hr.status, hr.meth, hr.uri, hr.vers, hr.hdrs⟩
+  | fail rv => rfl
+
+/-- RESPONSES, likewise (every byte stream): the decoder over the model's line meaning (http_res_parse_line with
+    glibc atoi, http_parse_header, nni_http_add_header on the response list, the `parsed` flag, the refusal of an
+    empty head — `response_needs_status_line`) and the decoder over the specification's `resSem` reach the same
+    kind of state at the same position, with the same error number (NNG_EPROTO / NNG_ENOTSUP / NNG_EMSGSIZE) resp.
+    the same status code, reason, version and header list -/
+theorem spec_lines_res (p : Params) (s : Bytes) (h1 : p.maxLine = bufsz) (h2 : p.mark = marker) (h3 : p.versions = versions)
+    (h6 : p.hostMax = hostSize - 1) (h7 : p.ctypeMax = ctypeSize - 1) (h8 : p.clenMax = clenSize - 1)
+    (h9 : p.statusMin = statusMin) (h10 : p.statusMax = statusMax) :
+    (match decode (msem false) bufsz marker {} s, decodeRes p { vers := defaultVersion } s with
+     | .done m n, .done r n' => n = n' ∧ m.code = r.status ∧ m.rsn = r.reason ∧ m.vers = r.vers ∧
+                                  m.resHdrs.map (fun h => (h.name, h.value)) = r.hdrs
+     | .fail a, .fail b => a = b
+     | .run _ _ _ _, .run _ _ _ _ => True
+     | _, _ => False) := by
+  have hp : ResParams p := { host := h6, ctype := h7, clen := h8, versions := h3, smin := h9, smax := h10 }
+  have hrel := decode_rel RS (msem false) (HttpSpec.resSem p) (msem_resSem response_needs_status_line p hp) bufsz marker
+    {} { vers := defaultVersion } init_rel_res s
+  unfold decodeRes
+  rw [h1, h2]
+  generalize decode (msem false) bufsz marker {} s = x at hrel
+  generalize decode (HttpSpec.resSem p) bufsz marker { vers := defaultVersion } s = y at hrel
+  cases hrel with
+  | run a b racc len n hr => trivial
+  | done a b n hr => exact ⟨rfl, hr.status, hr.reason, hr.vers, hr.hdrs⟩
+  | fail rv => rfl
+
+/-- with the read path: what `nni_http_read_req` delivers on a fresh connection, for every stream and every
+    segmentation, is the specification's decoding of the stream (both in the observable form `specOut`/fields) -/
+theorem read_req_meets_spec (p : Params) (chunks : List Bytes) (hp : ReqParams p) (h1 : p.maxLine = bufsz) (h2 : p.mark = marker) :
+    ∃ st, modelOut (runRead true {} chunks) = specOut st ∧
+      StRel RR st (decodeReq p { vers := defaultVersion } chunks.flatten) := by
+  refine ⟨decode (msem true) bufsz marker (connReset {}) chunks.flatten, ?_, ?_⟩
+  · simpa using req_decoding_is_stream_function {} chunks rfl (by decide)
+  · unfold decodeReq
+    rw [h1, h2]
+    exact decode_rel RR (msem true) (HttpSpec.reqSem p) (msem_reqSem req_header_errors_ignored p hp) bufsz marker
+      (connReset {}) { vers := defaultVersion } init_rel chunks.flatten
+
+/-! ## whole-head emit → parse round trip -/
+
+/-- the statement as first written: the head written for a request decodes to the fields it was written from.
+    It is FALSE (`emit_round_trip_statement_false`): it puts no condition on the version, none on control
+    characters in the URI, and none on control characters, CR or LF in header names and values. -/
 def emit_round_trip_statement : Prop :=
   ∀ (m : Msg), SP ∉ m.meth → m.meth.length < methSize → (∀ c ∈ m.meth, 0x20 < c) →
     (match m.uri with | some u => Url.canonify u = some u ∧ SP ∉ u | none => True) →
@@ -263,6 +334,134 @@ def emit_round_trip_statement : Prop :=
     (emitReq m).length < bufsz →
     ∃ m' n, decode (msem true) bufsz marker (connReset {}) (emitReq m) = .done m' n ∧ n = (emitReq m).length ∧
       m'.meth = m.meth ∧ getUri m' = getUri m ∧ m'.vers = m.vers
+
+/-- observation of a decoding: (0 incomplete / 1 head complete / 2 failed, stream position resp. error number,
+    version, URI, number of headers) -/
+def obs : St Msg → Nat × Nat × Bytes × Bytes × Nat
+  | .run _ _ _ n => (0, n, [], [], 0)
+  | .done m n => (1, n, m.vers, getUri m, m.reqHdrs.length)
+  | .fail rv => (2, rv, [], [], 0)
+
+/-- version "X" (nni_http_set_version refuses it, but the statement did not ask for a known version) -/
+def exVers : Msg := { vers := ofNats [88] }
+/-- header `A` with the value 0x01 -/
+def exCtl : Msg := { reqHdrs := [{ name := ofNats [65], value := ofNats [1] }] }
+/-- header `A` with the value "b CR LF CR LF GET /evil HTTP/1.1 CR LF Host: x": nni_http_set_header accepts it -/
+def exSplit : Msg := { reqHdrs := [{ name := ofNats [65], value := ofNats [98, 13, 10, 13, 10, 71, 69, 84, 32, 47, 101, 118, 105, 108,
+  32, 72, 84, 84, 80, 47, 49, 46, 49, 13, 10, 72, 111, 115, 116, 58, 32, 120] }] }
+/-- URI "/" 0x01: the canonicaliser passes control characters through -/
+def exUri : Msg := { uri := some (ofNats [47, 1]) }
+
+/-- an unknown version is written as it is and answered 505: version (and method) are not read back -/
+theorem emit_needs_known_version :
+    obs (decode (msem true) bufsz marker (connReset {}) (emitReq exVers)) = (1, 11, defaultVersion, sSlash, 0) ∧
+      exVers.vers ≠ defaultVersion := by decide
+
+/-- a control character in a header value is written as it is; the reader fails the connection -/
+theorem emit_needs_clean_header_value :
+    trimTrail (trimLead (ofNats [1])) = ofNats [1] ∧
+    obs (decode (msem true) bufsz marker (connReset {}) (emitReq exCtl)) = (2, 13, [], [], 0) := by decide
+
+/-- CR LF CR LF in a header value is written as it is: the head ends after 24 of the 55 bytes written, and the
+    remaining 31 bytes are a second, complete request (`GET /evil`) that the application never issued —
+    request splitting.  Confirmed on the real code: corpus/C16/http-header-crlf-injection.txt. -/
+theorem emit_needs_no_crlf_in_header_value :
+    obs (decode (msem true) bufsz marker (connReset {}) (emitReq exSplit)) = (1, 24, defaultVersion, sSlash, 1) ∧
+    (emitReq exSplit).length = 55 ∧
+    obs (decode (msem true) bufsz marker (connReset {}) ((emitReq exSplit).drop 24)) = (1, 31, defaultVersion, ofNats [47, 101, 118, 105, 108], 1) := by
+  decide
+
+/-- a control character in the URI: accepted by the canonicaliser, written as it is, refused by the reader -/
+theorem emit_needs_clean_uri :
+    Url.canonify (ofNats [47, 1]) = some (ofNats [47, 1]) ∧ SP ∉ ofNats [47, 1] ∧
+    obs (decode (msem true) bufsz marker (connReset {}) (emitReq exUri)) = (2, 13, [], [], 0) := by decide
+
+/-- what a complete decoding holds: [method, URI, name, value, name, value …]; [] when not complete -/
+def obsFields : St Msg → List Bytes
+  | .done m _ => m.meth :: getUri m :: m.reqHdrs.flatMap fun h => [h.name, h.value]
+  | _ => []
+
+/-- the remaining conditions of `EmitOk`/`HdrOk` are needed as well: a space in the method ("GET x": read back
+    as method GET, URI "x" refused ⇒ the method is not set either); a URI that is not a fixed point of the
+    canonicaliser ("/a/../b" is read back as "/b"); a colon in a header name ("A:B" is read back as "A" with value
+    "B: c"); white space at the start of a value (" x" is read back as "x") -/
+theorem emit_needs_other_conditions :
+    obsFields (decode (msem true) bufsz marker (connReset {}) (emitReq { meth := ofNats [71, 69, 84, 32, 120] })) =
+      [sGET, sSlash] ∧
+    obsFields (decode (msem true) bufsz marker (connReset {}) (emitReq { uri := some (ofNats [47, 97, 47, 46, 46, 47, 98]) })) =
+      [sGET, ofNats [47, 98]] ∧
+    obsFields (decode (msem true) bufsz marker (connReset {}) (emitReq { reqHdrs := [{ name := ofNats [65, 58, 66], value := ofNats [99] }] })) =
+      [sGET, sSlash, ofNats [65], ofNats [66, 58, 32, 99]] ∧
+    obsFields (decode (msem true) bufsz marker (connReset {}) (emitReq { reqHdrs := [{ name := ofNats [65], value := ofNats [32, 120] }] })) =
+      [sGET, sSlash, ofNats [65], ofNats [120]] := by decide
+
+/-- the statement as first written does not hold -/
+theorem emit_round_trip_statement_false : ¬ emit_round_trip_statement := by
+  intro h
+  obtain ⟨m', n, hd, _, _, _, _⟩ := h exCtl (by decide) (by decide) (by decide) trivial (by decide) (by decide)
+  have := emit_needs_clean_header_value.2
+  rw [hd] at this
+  cases this
+
+/-- CORRECTED, PROVED.  `EmitOk m` (Proofs/HttpEmit.lean) = the version is one of the table, the method is shorter
+    than conn->meth and has no byte ≤ 0x20, the URI (if set) is a fixed point of the canonicaliser without a byte
+    ≤ 0x20, every header name is without ':' and every header name and value without a byte < 0x20, values
+    without white space at their ends.  Then the head written (if it fits the buffer) is decoded completely — the
+    head ends exactly at the end of what was written — to `parsedBack m`: the request line's three fields and
+    nni_http_add_header replayed over the headers in the order written. -/
+theorem emit_parses_back (m : Msg) (hok : EmitOk m) (hlen : (emitReq m).length < bufsz) :
+    decode (msem true) bufsz marker (connReset {}) (emitReq m) = .done (parsedBack m) (emitReq m).length :=
+  decode_emitReq req_header_errors_ignored m hok hlen
+
+/-- the corrected statement in the form of the original one, with status -/
+theorem emit_round_trip (m : Msg) (hok : EmitOk m) (hlen : (emitReq m).length < bufsz) :
+    ∃ m' n, decode (msem true) bufsz marker (connReset {}) (emitReq m) = .done m' n ∧ n = (emitReq m).length ∧
+      m'.meth = m.meth ∧ getUri m' = getUri m ∧ m'.vers = m.vers ∧ getStatus m' = 200 := by
+  refine ⟨parsedBack m, _, emit_parses_back m hok hlen, rfl, ?_⟩
+  obtain ⟨g1, _, g3, g4, g5⟩ := replay_fields m.reqHdrs (reqLineMsg m)
+  refine ⟨g3, ?_, g5, ?_⟩
+  · show getUri (replay (reqLineMsg m) m.reqHdrs) = getUri m
+    have hu : getUri (replay (reqLineMsg m) m.reqHdrs) = getUri (reqLineMsg m) := by unfold getUri; rw [g4]
+    rw [hu]
+    show (if (getUri m).isEmpty then sSlash else getUri m) = getUri m
+    have hne : (getUri m).isEmpty = false := by
+      unfold getUri
+      cases m.uri with
+      | none => rfl
+      | some u =>
+        simp only
+        by_cases he : u.isEmpty = true
+        · rw [if_pos he]; rfl
+        · rw [if_neg he]; simpa using he
+    rw [hne]; rfl
+  · show getStatus (replay (reqLineMsg m) m.reqHdrs) = 200
+    have h0 : (reqLineMsg m).code = 0 := by
+      show (connReset {}).code = 0
+      decide
+    unfold getStatus
+    rw [g1, h0]
+    decide
+
+/-- headers too: when the names are ordinary (not Host / Content-Type / Content-Length, which have their own
+    nodes, positions and size limits) and pairwise different without regard to case, the headers read back are
+    the headers written, names and values, in order -/
+theorem emit_round_trip_headers (m : Msg) (hok : EmitOk m) (hlen : (emitReq m).length < bufsz)
+    (hp : ∀ h ∈ m.reqHdrs, Plain h.name) (hpw : m.reqHdrs.Pairwise (fun x y => ieq y.name x.name = false)) :
+    ∃ m' n, decode (msem true) bufsz marker (connReset {}) (emitReq m) = .done m' n ∧
+      m'.reqHdrs.map (fun h => (h.name, h.value)) = m.reqHdrs.map (fun h => (h.name, h.value)) :=
+  ⟨parsedBack m, _, emit_parses_back m hok hlen, parsedBack_hdrs m hp hpw⟩
+
+/-- through the read path, any segmentation: a server connection that is handed the written head in any pieces
+    completes the read with exactly these fields and nothing left over -/
+theorem emit_read_back (m : Msg) (hok : EmitOk m) (hlen : (emitReq m).length < bufsz) (chunks : List Bytes)
+    (hch : chunks.flatten = emitReq m) :
+    modelOut (runRead true {} chunks) = .done (parsedBack m) (emitReq m).length := by
+  have := req_decoding_is_stream_function {} chunks rfl (by decide)
+  simp only [List.nil_append] at this
+  rw [this, hch]
+  show specOut (decode (msem true) bufsz marker (connReset {}) (emitReq m)) = _
+  rw [emit_parses_back m hok hlen]
+  rfl
 
 /-! ## the hypotheses are satisfiable: concrete, non-trivial instances -/
 
@@ -277,5 +476,28 @@ example :
 
 example : Url.canonify (ofNats [47, 97]) = some (ofNats [47, 97]) ∧ versions.contains (ofNats [72, 84, 84, 80, 47, 49, 46, 49]) = true ∧
     getStatus (connReset {}) < stBadRequest := by decide
+
+/-- `EmitOk` is satisfiable: POST /a?b=1 HTTP/1.0 with two ordinary headers; the round trip theorems apply -/
+def exH1 : Hdr := { name := ofNats [88, 45, 65], value := ofNats [49, 32, 50] }
+def exH2 : Hdr := { name := ofNats [65, 99, 99, 101, 112, 116], value := ofNats [42, 47, 42] }
+def exReq : Msg :=
+  { meth := ofNats [80, 79, 83, 84], uri := some (ofNats [47, 97, 63, 98, 61, 49]), vers := ofNats [72, 84, 84, 80, 47, 49, 46, 48], reqHdrs := [exH1, exH2] }
+
+theorem exReq_ok : EmitOk exReq := by
+  refine ⟨by decide, by decide, by decide, ?_, ?_⟩
+  · intro u hu
+    have : u = ofNats [47, 97, 63, 98, 61, 49] := by cases hu; rfl
+    subst this
+    decide
+  · intro h hh
+    have : h = exH1 ∨ h = exH2 := by simpa [exReq] using hh
+    rcases this with e | e <;> subst e <;>
+      exact ⟨by decide, by unfold Clean; decide, by unfold Clean; decide, by decide⟩
+
+example : ∃ m' n, decode (msem true) bufsz marker (connReset {}) (emitReq exReq) = .done m' n ∧
+    m'.reqHdrs.map (fun h => (h.name, h.value)) = exReq.reqHdrs.map (fun h => (h.name, h.value)) :=
+  emit_round_trip_headers exReq exReq_ok (by decide)
+    (by show ∀ h ∈ exReq.reqHdrs, (ieq h.name sContentType = false ∧ ieq h.name sContentLength = false ∧ ieq h.name sHost = false); decide)
+    (by decide)
 
 end Nng.C16Http
